@@ -242,10 +242,10 @@ Proof.
   induction s; cbn [split_on]; auto.
   destruct (a =? 47)%N eqn:E.
   - apply N.eqb_eq in E. subst. cbn [join47].
-    destruct (split_on 47 s) eqn:Es; [exfalso; eapply split_on_nonempty; eauto|].
+    destruct (split_on 47 s) as [|f fs] eqn:Es; [exfalso; eapply split_on_nonempty; eauto|].
     rewrite IHs. auto.
-  - destruct (split_on 47 s) eqn:Es; [exfalso; eapply split_on_nonempty; eauto|].
-    destruct l as [|x l']; cbn [join47 app] in *; rewrite <- IHs; auto.
+  - destruct (split_on 47 s) as [|f fs] eqn:Es; [exfalso; eapply split_on_nonempty; eauto|].
+    destruct fs as [|x fs']; cbn [join47 app] in *; rewrite <- IHs; auto.
 Qed.
 
 Lemma no47_app : forall a b, no47 a -> no47 b -> no47 (a ++ b).
@@ -528,3 +528,1041 @@ Proof.
 Qed.
 
 End FindScan.
+
+(** * 3. what a trie represents *)
+
+(** remaining key path, (route id, parameter names) *)
+Definition kc := (list bytes * (nat * list bytes))%type.
+
+(** [KSem nd l]: below [nd] exactly the prefixes of the key paths of [l] exist, and the
+    node at the end of each key path carries that entry's route id and names. *)
+Definition KSem (nd : node) (l : list kc) : Prop :=
+  (forall q, q <> [] -> (lookup nd q <> None <-> exists e, In e l /\ prefix q (fst e)))
+  /\ (forall e, In e l -> exists n, lookup nd (fst e) = Some n /\ n_info n = Some (fst (snd e)) /\ n_names n = snd (snd e)).
+
+(** the entries that continue with key [k], with that key consumed *)
+Fixpoint kstep (k : bytes) (l : list kc) : list kc :=
+  match l with
+  | [] => []
+  | (ks, d) :: r =>
+    match ks with
+    | k' :: ks' => if bytes_eqb k' k then (ks', d) :: kstep k r else kstep k r
+    | [] => kstep k r
+    end
+  end.
+
+Lemma In_kstep : forall k ks d l, In (ks, d) (kstep k l) <-> In (k :: ks, d) l.
+Proof.
+  induction l as [|[ks0 d0] l IH]; cbn [kstep In]; [tauto|].
+  destruct ks0 as [|k' ks'].
+  - rewrite IH. split; [tauto|]. intros [H | H]; [discriminate | auto].
+  - destruct (bytes_eqb k' k) eqn:E.
+    + apply bytes_eqb_eq in E. subst. cbn [In]. rewrite IH. split; intros [H | H]; auto; left; congruence.
+    + rewrite IH. split; [tauto|]. intros [H | H]; auto.
+      inversion H; subst. rewrite bytes_eqb_refl in E. discriminate.
+Qed.
+
+Lemma KSem_empty : KSem empty_node [].
+Proof.
+  split.
+  - intros q Hq. destruct q; [contradiction|]. cbn. split; [intros H; contradiction|].
+    intros [e [[] _]].
+  - intros e [].
+Qed.
+
+Lemma KSem_step : forall nd l k c, KSem nd l -> next_get nd k = Some c -> KSem c (kstep k l).
+Proof.
+  intros nd l k c [HA HB] Hk. split.
+  - intros q Hq.
+    assert (Hl : lookup c q = lookup nd (k :: q)) by (cbn [lookup]; rewrite Hk; auto).
+    rewrite Hl. rewrite HA by discriminate. split.
+    + intros [[ks d] [Hin Hp]]. cbn [fst] in Hp. destruct ks as [|k' ks']; [apply prefix_cons_nil in Hp; contradiction|].
+      apply prefix_cons in Hp. destruct Hp as [-> Hp].
+      exists (ks', d). split; auto. apply In_kstep. auto.
+    + intros [[ks d] [Hin Hp]]. apply In_kstep in Hin. exists (k :: ks, d). split; auto.
+      cbn [fst] in *. apply prefix_cons. auto.
+  - intros [ks d] Hin. apply In_kstep in Hin. destruct (HB _ Hin) as [n [H1 H2]].
+    cbn [fst snd] in *. cbn [lookup] in H1. rewrite Hk in H1. eauto.
+Qed.
+
+Lemma KSem_child_iff : forall nd l k, KSem nd l -> (next_get nd k <> None <-> kstep k l <> []).
+Proof.
+  intros nd l k [HA _].
+  assert (Hl : lookup nd [k] <> None <-> next_get nd k <> None).
+  { cbn [lookup]. destruct (next_get nd k); split; intros; auto; discriminate. }
+  rewrite <- Hl. rewrite HA by discriminate. split.
+  - intros [[ks d] [Hin Hp]]. cbn [fst] in Hp. destruct ks as [|k' ks']; [apply prefix_cons_nil in Hp; contradiction|].
+    apply prefix_cons in Hp. destruct Hp as [-> _].
+    intros E. apply In_kstep in Hin. rewrite E in Hin. contradiction.
+  - intros Hne. destruct (kstep k l) as [|[ks d] r] eqn:E; [contradiction|].
+    assert (Hin : In (ks, d) (kstep k l)) by (rewrite E; left; auto).
+    apply In_kstep in Hin. exists (k :: ks, d). split; auto. cbn [fst]. apply prefix_cons. split; auto. apply prefix_nil.
+Qed.
+
+Lemma lookup_prefix_some : forall nd p r, lookup nd (p ++ r) <> None -> lookup nd p <> None.
+Proof. intros nd p r H. rewrite lookup_app in H. destruct (lookup nd p); auto; discriminate. Qed.
+
+Lemma KSem_insert : forall nd l p i ns,
+  KSem nd l -> lookup nd p = None ->
+  KSem (insert nd p (Node [] (Some i) ns)) (l ++ [(p, (i, ns))]).
+Proof.
+  intros nd l p i ns [HA HB] Hnone.
+  set (leaf := Node [] (Some i) ns).
+  assert (Hleaf : n_next leaf = []) by reflexivity.
+  split.
+  - intros q Hq. rewrite (lookup_insert_exists p nd leaf q Hleaf Hnone). rewrite HA by auto. split.
+    + intros [[e [Hin Hp]] | Hp].
+      * exists e. split; auto. apply in_or_app. auto.
+      * exists (p, (i, ns)). split; auto. apply in_or_app. right. left. auto.
+    + intros [e [Hin Hp]]. apply in_app_or in Hin. destruct Hin as [Hin | [<- | []]]; [left; eauto | right; auto].
+  - intros e Hin. apply in_app_or in Hin. destruct Hin as [Hin | [<- | []]].
+    + destruct (HB _ Hin) as [n [H1 [H2 H3]]].
+      destruct (lookup_insert_keep p nd leaf (fst e) n H1) as [n' [H4 [H5 H6]]].
+      * intros [r Hr]. rewrite Hr, lookup_app, Hnone in H1. discriminate.
+      * exists n'. rewrite H5, H6. auto.
+    + cbn [fst snd]. exists leaf. split; [apply lookup_insert_same | auto].
+Qed.
+
+(** * 4. keys of patterns and methods; candidates as trie entries *)
+
+Definition starts47 (t : bytes) : bool := match t with b :: _ => (b =? 47)%N | [] => false end.
+
+Lemma starts47_neq : forall a b, starts47 a <> starts47 b -> bytes_eqb a b = false.
+Proof.
+  intros a b H. apply bytes_eqb_neq. intros E. subst. contradiction.
+Qed.
+
+Lemma no47_starts : forall s, no47 s -> starts47 s = false.
+Proof.
+  intros s H. destruct s; auto. inversion H; subst. cbn [starts47]. apply N.eqb_neq. auto.
+Qed.
+
+Lemma assoc_get_mem : forall A (tbl : list (bytes * A)) m,
+  assoc_get m tbl <> None <-> mem_bytes m (map fst tbl) = true.
+Proof.
+  induction tbl as [|[k v] tbl IH]; intros m; cbn [assoc_get mem_bytes map fst].
+  - split; [contradiction | discriminate].
+  - destruct (bytes_eqb k m); cbn [orb]; [split; [auto | discriminate]|]. apply IH.
+Qed.
+
+Lemma methods_eq : methods = map fst method_tag_map.
+Proof. reflexivity. Qed.
+
+Lemma method_tag_valid : forall m, valid_method m = true -> exists t, method_tag m = Some t.
+Proof.
+  intros m H. unfold valid_method in H. rewrite methods_eq in H. apply assoc_get_mem in H.
+  unfold method_tag. destruct (assoc_get m method_tag_map); eauto. contradiction.
+Qed.
+
+Lemma method_tag_invalid : forall m, valid_method m = false -> method_tag m = None.
+Proof.
+  intros m H. unfold method_tag. destruct (assoc_get m method_tag_map) eqn:E; auto.
+  assert (assoc_get m method_tag_map <> None) as H1 by (rewrite E; discriminate).
+  apply assoc_get_mem in H1. rewrite <- methods_eq in H1. unfold valid_method in H. congruence.
+Qed.
+
+Lemma method_tag0_invalid : forall m, valid_method m = false -> method_tag0 m = [].
+Proof. intros. unfold method_tag0. rewrite method_tag_invalid; auto. Qed.
+
+Lemma method_tag0_valid : forall m t, method_tag m = Some t -> method_tag0 m = t.
+Proof. intros. unfold method_tag0. rewrite H. auto. Qed.
+
+Definition tag_props_check : bool :=
+  forallb (fun m => starts47 (method_tag0 m) && negb (bytes_eqb (method_tag0 m) route_param)
+                    && negb (bytes_eqb (method_tag0 m) route_param_any)) methods.
+Definition tag_inj_check : bool :=
+  forallb (fun m1 => forallb (fun m2 => implb (bytes_eqb (method_tag0 m1) (method_tag0 m2)) (bytes_eqb m1 m2)) methods) methods.
+
+Lemma tag_props : forall m, valid_method m = true ->
+  starts47 (method_tag0 m) = true /\ bytes_eqb (method_tag0 m) route_param = false
+  /\ bytes_eqb (method_tag0 m) route_param_any = false.
+Proof.
+  intros m H. apply mem_bytes_In in H.
+  assert (C : tag_props_check = true) by (vm_compute; reflexivity).
+  unfold tag_props_check in C. rewrite forallb_forall in C. specialize (C m H).
+  apply andb_true_iff in C. destruct C as [C C3]. apply andb_true_iff in C. destruct C as [C1 C2].
+  apply negb_true_iff in C2, C3. auto.
+Qed.
+
+Lemma tag_inj : forall m1 m2, valid_method m1 = true -> valid_method m2 = true ->
+  method_tag0 m1 = method_tag0 m2 -> m1 = m2.
+Proof.
+  intros m1 m2 H1 H2 E. apply mem_bytes_In in H1, H2.
+  assert (C : tag_inj_check = true) by (vm_compute; reflexivity).
+  unfold tag_inj_check in C. rewrite forallb_forall in C. specialize (C m1 H1).
+  rewrite forallb_forall in C. specialize (C m2 H2). rewrite E, bytes_eqb_refl in C. cbn [implb] in C.
+  apply bytes_eqb_eq. auto.
+Qed.
+
+Definition key_of (p : pseg) : bytes :=
+  match p with PLit s => s | PParam _ => route_param | PAny => route_param_any end.
+
+Definition pseg_wf (p : pseg) : Prop :=
+  match p with PLit s => s <> [] /\ no47 s | _ => True end.
+
+Definition ckeys (c : cand) : list bytes := map key_of (c_rest c) ++ [method_tag0 (c_method c)].
+Definition to_kc (c : cand) : kc := (ckeys c, (c_id c, c_names c)).
+Definition cand_wf (c : cand) : Prop := Forall pseg_wf (c_rest c) /\ valid_method (c_method c) = true.
+
+Lemma kstep_filter : forall k (P : cand -> bool) cs,
+  (forall c, In c cs ->
+     match c_rest c with
+     | [] => P c = false /\ bytes_eqb (method_tag0 (c_method c)) k = false
+     | p :: _ => P c = bytes_eqb (key_of p) k
+     end) ->
+  kstep k (map to_kc cs) = map to_kc (map advance (filter P cs)).
+Proof.
+  induction cs as [|c cs IH]; intros H; cbn [map kstep filter]; auto.
+  assert (Hc := H c (or_introl eq_refl)).
+  assert (IH' : kstep k (map to_kc cs) = map to_kc (map advance (filter P cs))).
+  { apply IH. intros c' Hin. apply H. right. auto. }
+  unfold to_kc at 1. unfold ckeys. destruct c as [id rest m ns]. cbn [c_rest c_method c_id c_names] in *.
+  destruct rest as [|p r]; cbn [map app].
+  - destruct Hc as [Hp Ht]. rewrite Ht, Hp. auto.
+  - rewrite Hc. destruct (bytes_eqb (key_of p) k); auto.
+    cbn [map]. rewrite IH'. reflexivity.
+Qed.
+
+Lemma cand_wf_advance : forall (P : cand -> bool) cs,
+  Forall cand_wf cs -> Forall cand_wf (map advance (filter P cs)).
+Proof.
+  induction cs as [|c cs IH]; intros H; cbn [filter map]; [constructor|].
+  inversion H; subst. destruct (P c); auto. cbn [map]. constructor; auto.
+  destruct H2 as [H2 H4]. split; auto. unfold advance. cbn [c_rest].
+  destruct (c_rest c); cbn [tl]; auto. inversion H2; auto.
+Qed.
+
+Lemma kstep_lit : forall s cs, Forall cand_wf cs -> no47 s ->
+  kstep s (map to_kc cs) = map to_kc (map advance (filter (is_lit s) cs)).
+Proof.
+  intros s cs Hwf Hs. apply kstep_filter. intros c Hin.
+  rewrite Forall_forall in Hwf. destruct (Hwf c Hin) as [Hr Hm].
+  unfold is_lit. destruct (c_rest c) as [|p r].
+  - split; auto. apply starts47_neq. destruct (tag_props _ Hm) as [-> _]. rewrite no47_starts; auto. discriminate.
+  - inversion Hr; subst. destruct p; cbn [key_of]; auto;
+      symmetry; apply starts47_neq; rewrite (no47_starts s) by auto; cbn; discriminate.
+Qed.
+
+Lemma kstep_param : forall cs, Forall cand_wf cs ->
+  kstep route_param (map to_kc cs) = map to_kc (map advance (filter is_param cs)).
+Proof.
+  intros cs Hwf. apply kstep_filter. intros c Hin.
+  rewrite Forall_forall in Hwf. destruct (Hwf c Hin) as [Hr Hm].
+  unfold is_param. destruct (c_rest c) as [|p r].
+  - split; auto. apply (tag_props _ Hm).
+  - inversion Hr; subst. destruct p; cbn [key_of]; auto.
+    destruct H1 as [_ H1]. symmetry. apply starts47_neq. rewrite (no47_starts s) by auto. cbn. discriminate.
+Qed.
+
+Lemma kstep_any : forall cs, Forall cand_wf cs ->
+  kstep route_param_any (map to_kc cs) = map to_kc (map advance (filter is_any cs)).
+Proof.
+  intros cs Hwf. apply kstep_filter. intros c Hin.
+  rewrite Forall_forall in Hwf. destruct (Hwf c Hin) as [Hr Hm].
+  unfold is_any. destruct (c_rest c) as [|p r].
+  - split; auto. apply (tag_props _ Hm).
+  - inversion Hr; subst. destruct p; cbn [key_of]; auto.
+    destruct H1 as [_ H1]. symmetry. apply starts47_neq. rewrite (no47_starts s) by auto. cbn. discriminate.
+Qed.
+
+(** * 5. the trie walk and the specification narrow in lock step *)
+
+Lemma map_map_nil : forall (X : list cand), map to_kc (map advance X) = [] -> X = [].
+Proof. destruct X; auto. discriminate. Qed.
+
+Lemma walk_sim : forall segs nd cs v vals,
+  KSem nd (map to_kc cs) -> Forall cand_wf cs -> Forall no47 segs -> v_items v = vals ->
+  match walk_spec cs segs vals with
+  | Some (cs', vals') =>
+    exists nd' v', walk_trie push_append nd segs v = Some (Some nd', v') /\ v_items v' = vals'
+                   /\ KSem nd' (map to_kc cs') /\ Forall cand_wf cs'
+  | None => exists v', walk_trie push_append nd segs v = Some (None, v')
+  end.
+Proof.
+  induction segs as [|s rest IH]; intros nd cs v vals HK Hwf Hno Hv.
+  - cbn [walk_spec walk_trie]. eauto 6.
+  - inversion Hno as [|? ? Hs Hrest]; subst.
+    cbn [walk_spec walk_trie]. unfold find_frag.
+    destruct (is_nil s && negb (is_nil rest)); [apply IH; auto|].
+    pose proof (KSem_child_iff _ _ s HK) as Hlit. rewrite kstep_lit in Hlit by auto.
+    pose proof (KSem_child_iff _ _ route_param HK) as Hpar. rewrite kstep_param in Hpar by auto.
+    pose proof (KSem_child_iff _ _ route_param_any HK) as Hany. rewrite kstep_any in Hany by auto.
+    destruct (next_get nd s) as [res|] eqn:En.
+    { assert (Hf : filter (is_lit s) cs <> []).
+      { intros E. rewrite E in Hlit. cbn in Hlit. apply (proj1 Hlit); [discriminate | auto]. }
+      destruct (filter (is_lit s) cs) as [|c0 ls] eqn:Ef; [contradiction|]. rewrite <- Ef.
+      apply IH; auto.
+      - rewrite <- kstep_lit by auto. eapply KSem_step; eauto.
+      - apply cand_wf_advance. auto. }
+    assert (Hf : filter (is_lit s) cs = []).
+    { apply map_map_nil. destruct (map to_kc (map advance (filter (is_lit s) cs))); auto.
+      exfalso. apply (proj2 Hlit); [discriminate | auto]. }
+    rewrite Hf.
+    destruct (next_get nd route_param) as [res|] eqn:Ep.
+    { assert (Hf2 : filter is_param cs <> []).
+      { intros E. rewrite E in Hpar. cbn in Hpar. apply (proj1 Hpar); [discriminate | auto]. }
+      destruct (filter is_param cs) as [|c0 ps] eqn:Ef; [contradiction|]. rewrite <- Ef.
+      unfold push_append at 1.
+      apply IH; auto.
+      - rewrite <- kstep_param by auto. eapply KSem_step; eauto.
+      - apply cand_wf_advance. auto. }
+    assert (Hf2 : filter is_param cs = []).
+    { apply map_map_nil. destruct (map to_kc (map advance (filter is_param cs))); auto.
+      exfalso. apply (proj2 Hpar); [discriminate | auto]. }
+    rewrite Hf2.
+    destruct (next_get nd route_param_any) as [res|] eqn:Ea.
+    { assert (Hf3 : filter is_any cs <> []).
+      { intros E. rewrite E in Hany. cbn in Hany. apply (proj1 Hany); [discriminate | auto]. }
+      destruct (filter is_any cs) as [|c0 zs] eqn:Ef; [contradiction|]. rewrite <- Ef.
+      unfold push_append. eexists. eexists. split; [reflexivity|]. cbn [v_items].
+      split; [reflexivity|]. split.
+      - rewrite <- kstep_any by auto. eapply KSem_step; eauto.
+      - apply cand_wf_advance. auto. }
+    assert (Hf3 : filter is_any cs = []).
+    { apply map_map_nil. destruct (map to_kc (map advance (filter is_any cs))); auto.
+      exfalso. apply (proj2 Hany); [discriminate | auto]. }
+    rewrite Hf3. eauto.
+Qed.
+
+Lemma hd_ckeys_tag : forall c m', cand_wf c -> prefix [method_tag0 m'] (ckeys c) ->
+  c_rest c = [] /\ c_method c = m'.
+Proof.
+  intros c m' [Hr Hm] Hp. unfold ckeys in Hp. destruct (c_rest c) as [|p r]; cbn [map app] in Hp;
+    apply prefix_cons in Hp; destruct Hp as [Ht _].
+  - split; auto. destruct (valid_method m') eqn:Ev.
+    + symmetry. apply tag_inj; auto.
+    + rewrite method_tag0_invalid in Ht by auto. destruct (tag_props _ Hm) as [H1 _].
+      rewrite <- Ht in H1. discriminate.
+  - exfalso. inversion Hr as [|? ? Hp0 _]; subst. destruct (valid_method m') eqn:Ev.
+    + destruct (tag_props _ Ev) as [H1 [H2 H3]]. rewrite Ht in *.
+      destruct p; cbn [key_of pseg_wf] in *.
+      * destruct Hp0 as [_ Hn]. rewrite no47_starts in H1 by auto. discriminate.
+      * rewrite bytes_eqb_refl in H2. discriminate.
+      * rewrite bytes_eqb_refl in H3. discriminate.
+    + rewrite method_tag0_invalid in Ht by auto. destruct p; cbn [key_of pseg_wf] in *.
+      * destruct Hp0 as [Hn _]. congruence.
+      * discriminate.
+      * discriminate.
+Qed.
+
+Lemma lookup_single : forall nd k n, lookup nd [k] = Some n <-> next_get nd k = Some n.
+Proof. intros. cbn [lookup]. destruct (next_get nd k); split; intros H; auto; discriminate. Qed.
+
+Lemma tag_lookup : forall nd cs m', KSem nd (map to_kc cs) -> Forall cand_wf cs ->
+  match find (fun c => bytes_eqb (c_method c) m') (filter is_done cs) with
+  | Some c => exists n, next_get nd (method_tag0 m') = Some n /\ n_info n = Some (c_id c) /\ n_names n = c_names c
+  | None => next_get nd (method_tag0 m') = None
+  end.
+Proof.
+  intros nd cs m' [HA HB] Hwf. rewrite Forall_forall in Hwf.
+  destruct (find _ _) as [c|] eqn:Ef.
+  - apply find_some in Ef. destruct Ef as [Hin Hm]. apply filter_In in Hin. destruct Hin as [Hin Hd].
+    apply bytes_eqb_eq in Hm. unfold is_done in Hd.
+    destruct (HB (to_kc c) (in_map to_kc _ _ Hin)) as [n [H1 [H2 H3]]].
+    cbn [to_kc fst snd] in *. unfold ckeys in H1. destruct (c_rest c); [|discriminate].
+    cbn [map app] in H1. rewrite Hm in H1. apply lookup_single in H1. eauto.
+  - destruct (next_get nd (method_tag0 m')) as [n|] eqn:En; auto. exfalso.
+    assert (Hl : lookup nd [method_tag0 m'] <> None).
+    { cbn [lookup]. rewrite En. discriminate. }
+    apply HA in Hl; [|discriminate]. destruct Hl as [e [Hin Hp]].
+    apply in_map_iff in Hin. destruct Hin as [c [<- Hin]]. cbn [to_kc fst] in Hp.
+    destruct (hd_ckeys_tag c m' (Hwf c Hin) Hp) as [Hr Hm].
+    assert (Hf : In c (filter is_done cs)).
+    { apply filter_In. split; auto. unfold is_done. rewrite Hr. auto. }
+    pose proof (find_none _ _ Ef c Hf) as Hx. cbn beta in Hx. rewrite Hm, bytes_eqb_refl in Hx. discriminate.
+Qed.
+
+Lemma finish_sim : forall nd cs method vals, KSem nd (map to_kc cs) -> Forall cand_wf cs ->
+  match finish_spec cs method vals with
+  | Some m => exists n, method_node_or_nil nd method = Some n /\ n_info n = Some (m_route m)
+                        /\ n_names n = m_names m /\ m_values m = vals
+  | None => method_node_or_nil nd method = None
+  end.
+Proof.
+  intros nd cs method vals HK Hwf. unfold finish_spec, method_node_or_nil.
+  pose proof (tag_lookup nd cs method HK Hwf) as H1.
+  pose proof (tag_lookup nd cs RouteSpec.method_all HK Hwf) as H2.
+  change (method_tag0 RouteSpec.method_all) with (method_tag0 Router.method_all) in H2.
+  destruct (find (fun c => bytes_eqb (c_method c) method) (filter is_done cs)) as [c|].
+  - destruct H1 as [n [E1 [E2 E3]]]. rewrite E1. exists n. cbn. auto.
+  - rewrite H1.
+    destruct (find (fun c => bytes_eqb (c_method c) RouteSpec.method_all) (filter is_done cs)) as [c|].
+    + destruct H2 as [n [E1 [E2 E3]]]. rewrite E1. exists n. cbn. auto.
+    + auto.
+Qed.
+
+Definition single_empty (segs : list bytes) : bool :=
+  match segs with [ [] ] => true | _ => false end.
+
+Lemma match_spec_eq : forall routes segs method,
+  match_spec routes segs method =
+  if single_empty segs then
+    match finish_spec (cands_from 0 routes) method [] with
+    | Some m => Some m
+    | None => walk_finish (cands_from 0 routes) segs method
+    end
+  else walk_finish (cands_from 0 routes) segs method.
+Proof. intros. unfold match_spec. destruct segs as [|[|] [|]]; reflexivity. Qed.
+
+Lemma single_empty_split : forall r, single_empty (split_on 47 r) = is_nil r.
+Proof.
+  destruct r as [|b r]; auto. cbn [split_on is_nil].
+  destruct (b =? 47)%N.
+  - destruct (split_on 47 r) eqn:E; auto. exfalso. eapply split_on_nonempty; eauto.
+  - destruct (split_on 47 r); auto.
+Qed.
+
+(** findRoute against the specification, for any trie that represents the table *)
+Theorem find_route_spec : forall routes root path method ps,
+  KSem root (map to_kc (cands_from 0 routes)) -> Forall cand_wf (cands_from 0 routes) ->
+  v_items (pV ps) = [] ->
+  exists info ps', find_route root path method ps = Some (info, ps') /\
+    match match_spec routes (segments path) method with
+    | Some m => info = Some (m_route m) /\ pK ps' = m_names m /\ v_items (pV ps') = m_values m
+    | None => info = None /\ pK ps' = pK ps
+    end.
+Proof.
+  intros routes root path method ps HK Hwf Hv.
+  unfold find_route, find_route_gen.
+  set (path' := if is_nil path then [47%N] else path).
+  assert (Hne : path' <> []) by (subst path'; destruct path; discriminate).
+  assert (Hseg : segments path' = segments path) by (subst path'; destruct path; reflexivity).
+  assert (H1 : (length path' =? 1) = single_empty (segments path')).
+  { destruct path' as [|b r]; [contradiction|]. unfold segments. cbn [tl length]. rewrite single_empty_split.
+    destruct r; reflexivity. }
+  rewrite match_spec_eq, <- Hseg, <- H1.
+  assert (General :
+    exists info ps',
+      match find_loop push_append (S (length path')) root path' 0 0 (pV ps) with
+      | Some (Some nd, v) =>
+        match method_node_or_nil nd method with
+        | Some n => Some (n_info n, {| pK := n_names n; pV := v |})
+        | None => Some (None, {| pK := pK ps; pV := v |})
+        end
+      | Some (None, v) => Some (None, {| pK := pK ps; pV := v |})
+      | None => None
+      end = Some (info, ps') /\
+      match walk_finish (cands_from 0 routes) (segments path') method with
+      | Some m => info = Some (m_route m) /\ pK ps' = m_names m /\ v_items (pV ps') = m_values m
+      | None => info = None /\ pK ps' = pK ps
+      end).
+  { rewrite find_loop_segs by auto. unfold walk_finish.
+    pose proof (walk_sim (segments path') root _ (pV ps) [] HK Hwf (split_no47 _) Hv) as Hw.
+    destruct (walk_spec (cands_from 0 routes) (segments path') []) as [[cs' vals']|].
+    - destruct Hw as [nd' [v' [E1 [E2 [HK' Hwf']]]]]. rewrite E1.
+      pose proof (finish_sim nd' cs' method vals' HK' Hwf') as Hf.
+      destruct (finish_spec cs' method vals') as [m|].
+      + destruct Hf as [n [F1 [F2 [F3 F4]]]]. rewrite F1. eexists. eexists. split; [reflexivity|].
+        cbn [pK pV]. rewrite F4. auto.
+      + rewrite Hf. eexists. eexists. split; [reflexivity|]. auto.
+    - destruct Hw as [v' E1]. rewrite E1. eexists. eexists. split; [reflexivity|]. auto. }
+  destruct (length path' =? 1) eqn:El; [|exact General].
+  pose proof (finish_sim root _ method [] HK Hwf) as Hf.
+  destruct (finish_spec (cands_from 0 routes) method []) as [m|].
+  - destruct Hf as [n [F1 [F2 [F3 F4]]]]. rewrite F1. eexists. eexists. split; [reflexivity|].
+    cbn [pK pV]. rewrite F4. auto.
+  - rewrite Hf. exact General.
+Qed.
+
+(** * 6. registration *)
+
+(** parseRoute at the level of keys: walk/create the key path, then the duplicate test *)
+Fixpoint put (nd : node) (ks : list bytes) (mtag : bytes) (info : nat) (names : list bytes) : node * presult :=
+  match ks with
+  | [] => parse_finish nd mtag info names
+  | k :: r => let (c, res) := put (next_or_new nd k) r mtag info names in (set_child nd k c, res)
+  end.
+
+Lemma put_ok : forall ks nd mtag info names,
+  lookup nd (ks ++ [mtag]) = None ->
+  put nd ks mtag info names = (insert nd (ks ++ [mtag]) (Node [] (Some info) names), POk (length names)).
+Proof.
+  induction ks as [|k r IH]; intros nd mtag info names H; cbn [put app insert].
+  - unfold parse_finish. cbn [app lookup] in H. destruct (next_get nd mtag); [discriminate|]. reflexivity.
+  - rewrite IH; auto. rewrite lookup_next_or_new by (destruct r; discriminate). auto.
+Qed.
+
+Lemma put_dup : forall ks nd mtag info names,
+  lookup nd (ks ++ [mtag]) <> None -> snd (put nd ks mtag info names) = PErr ErrDuplicate.
+Proof.
+  induction ks as [|k r IH]; intros nd mtag info names H; cbn [put].
+  - unfold parse_finish. cbn [app lookup] in H. destruct (next_get nd mtag); [reflexivity | contradiction].
+  - specialize (IH (next_or_new nd k) mtag info names).
+    rewrite lookup_next_or_new in IH by (destruct r; discriminate).
+    destruct (put (next_or_new nd k) r mtag info names). cbn [snd] in *. auto.
+Qed.
+
+(** the name checks as parseRoute makes them: against the names collected so far *)
+Fixpoint fwd_ok (names : list bytes) (pat : list pseg) : bool :=
+  match pat with
+  | [] => true
+  | PParam n :: r => negb (is_nil n || mem_bytes n names) && fwd_ok (names ++ [n]) r
+  | _ :: r => fwd_ok names r
+  end.
+
+Lemma fwd_ok_param : forall names n r,
+  fwd_ok names (PParam n :: r) = negb (is_nil n || mem_bytes n names) && fwd_ok (names ++ [n]) r.
+Proof. reflexivity. Qed.
+Lemma fwd_ok_lit : forall names s r, fwd_ok names (PLit s :: r) = fwd_ok names r.
+Proof. reflexivity. Qed.
+
+Lemma parse_segs_pattern : forall segs nd mtag info names,
+  if fwd_ok names (pattern_of segs)
+  then parse_segs segs nd mtag info names
+       = put nd (map key_of (pattern_of segs)) mtag info (names ++ pattern_names (pattern_of segs))
+  else snd (parse_segs segs nd mtag info names) = PErr ErrFragment.
+Proof.
+  induction segs as [|s r IH]; intros nd mtag info names.
+  - cbn. rewrite app_nil_r. reflexivity.
+  - cbn [parse_segs pattern_of]. unfold parse_frag. destruct s as [|c n]; [apply IH|].
+    destruct (bytes_eqb (c :: n) [42%N]); [reflexivity|].
+    destruct (c =? 58)%N.
+    + rewrite fwd_ok_param. destruct (is_nil n || mem_bytes n names); [reflexivity|]. cbn [negb andb].
+      specialize (IH (next_or_new nd route_param) mtag info (names ++ [n])).
+      destruct (fwd_ok (names ++ [n]) (pattern_of r)); cbv beta iota in IH; cbn [andb].
+      * rewrite IH. cbn [map key_of put pattern_names]. rewrite <- app_assoc. reflexivity.
+      * destruct (parse_segs r (next_or_new nd route_param) mtag info (names ++ [n])). cbn [snd] in *. auto.
+    + rewrite fwd_ok_lit. specialize (IH (next_or_new nd (c :: n)) mtag info names).
+      destruct (fwd_ok names (pattern_of r)); cbv beta iota in IH; cbn [andb].
+      * rewrite IH. reflexivity.
+      * destruct (parse_segs r (next_or_new nd (c :: n)) mtag info names). cbn [snd] in *. auto.
+Qed.
+
+Lemma mem_bytes_app_single : forall x names n, mem_bytes x (names ++ [n]) = mem_bytes x names || bytes_eqb n x.
+Proof.
+  induction names; intros; cbn [mem_bytes app].
+  - rewrite orb_false_r. auto.
+  - rewrite IHnames, orb_assoc. auto.
+Qed.
+
+Lemma forallb_notin_snoc : forall names n l,
+  forallb (fun x => negb (mem_bytes x (names ++ [n]))) l
+  = forallb (fun x => negb (mem_bytes x names)) l && negb (mem_bytes n l).
+Proof.
+  induction l as [|y l IH]; cbn [forallb mem_bytes]; auto.
+  rewrite IH, mem_bytes_app_single, (bytes_eqb_sym y n).
+  destruct (mem_bytes y names), (bytes_eqb n y), (forallb (fun x => negb (mem_bytes x names)) l), (mem_bytes n l); reflexivity.
+Qed.
+
+Lemma fwd_ok_spec : forall pat names,
+  fwd_ok names pat
+  = forallb (fun n => negb (is_nil n)) (param_names pat)
+    && forallb (fun n => negb (mem_bytes n names)) (param_names pat)
+    && nodup_bytes (param_names pat).
+Proof.
+  induction pat as [|p r IH]; intros names; [reflexivity|].
+  destruct p; cbn [fwd_ok param_names]; try apply IH.
+  rewrite IH. cbn [forallb nodup_bytes]. rewrite forallb_notin_snoc.
+  destruct (is_nil name), (mem_bytes name names), (forallb (fun n => negb (is_nil n)) (param_names r)),
+    (forallb (fun n => negb (mem_bytes n names)) (param_names r)), (mem_bytes name (param_names r)),
+    (nodup_bytes (param_names r)); reflexivity.
+Qed.
+
+Lemma fwd_ok_nil : forall pat, fwd_ok [] pat = pattern_ok pat.
+Proof.
+  intros. rewrite fwd_ok_spec. unfold pattern_ok.
+  assert (H : forallb (fun n : bytes => negb (mem_bytes n [])) (param_names pat) = true).
+  { apply forallb_forall. intros. reflexivity. }
+  rewrite H, andb_true_r. reflexivity.
+Qed.
+
+Lemma pattern_of_wf : forall segs, Forall no47 segs -> Forall pseg_wf (pattern_of segs).
+Proof.
+  induction segs as [|s r IH]; intros H; cbn [pattern_of]; [constructor|].
+  inversion H; subst. destruct s as [|c n]; auto.
+  destruct (bytes_eqb (c :: n) [42%N]); [repeat constructor|].
+  destruct (c =? 58)%N; constructor; auto; cbn [pseg_wf]; auto. split; [discriminate | auto].
+Qed.
+
+Lemma pattern_wf : forall p, Forall pseg_wf (pattern p).
+Proof. intros. apply pattern_of_wf. apply split_no47. Qed.
+
+Definition shape1 (a b : pseg) : bool :=
+  match a, b with
+  | PLit s, PLit t => bytes_eqb s t
+  | PParam _, PParam _ => true
+  | PAny, PAny => true
+  | _, _ => false
+  end.
+
+Lemma same_shape_cons : forall a p b q, same_shape (a :: p) (b :: q) = shape1 a b && same_shape p q.
+Proof. intros. destruct a, b; reflexivity. Qed.
+
+Lemma key_of_eq : forall a b, pseg_wf a -> pseg_wf b -> (key_of a = key_of b <-> shape1 a b = true).
+Proof.
+  intros a b Ha Hb. destruct a, b; cbn [key_of shape1 pseg_wf] in *;
+    try (split; intros; auto; reflexivity);
+    try (split; [intros E | discriminate]; exfalso).
+  - apply iff_sym, bytes_eqb_eq.
+  - destruct Ha as [_ Ha]. apply no47_starts in Ha. rewrite E in Ha. discriminate.
+  - destruct Ha as [_ Ha]. apply no47_starts in Ha. rewrite E in Ha. discriminate.
+  - destruct Hb as [_ Hb]. apply no47_starts in Hb. rewrite <- E in Hb. discriminate.
+  - discriminate.
+  - destruct Hb as [_ Hb]. apply no47_starts in Hb. rewrite <- E in Hb. discriminate.
+  - discriminate.
+Qed.
+
+Lemma key_not_tag : forall a m, pseg_wf a -> valid_method m = true -> key_of a <> method_tag0 m.
+Proof.
+  intros a m Ha Hm E. destruct (tag_props _ Hm) as [H1 [H2 H3]]. rewrite <- E in *.
+  destruct a; cbn [key_of pseg_wf] in *.
+  - destruct Ha as [_ Ha]. rewrite no47_starts in H1 by auto. discriminate.
+  - rewrite bytes_eqb_refl in H2. discriminate.
+  - rewrite bytes_eqb_refl in H3. discriminate.
+Qed.
+
+Lemma keys_prefix_shape : forall p q m mc,
+  Forall pseg_wf p -> Forall pseg_wf q -> valid_method m = true -> valid_method mc = true ->
+  (prefix (map key_of p ++ [method_tag0 m]) (map key_of q ++ [method_tag0 mc])
+   <-> same_shape p q = true /\ m = mc).
+Proof.
+  induction p as [|a p IH]; intros q m mc Hp Hq Hm Hmc.
+  - destruct q as [|b q]; cbn [map app].
+    + rewrite prefix_cons. split.
+      * intros [E _]. split; auto. apply tag_inj; auto.
+      * intros [_ ->]. split; auto. apply prefix_nil.
+    + rewrite prefix_cons. split.
+      * intros [E _]. exfalso. inversion Hq; subst. apply (key_not_tag b m); auto.
+      * intros [H _]. discriminate.
+  - inversion Hp; subst. destruct q as [|b q]; cbn [map app].
+    + rewrite prefix_cons. split.
+      * intros [E _]. exfalso. apply (key_not_tag a mc); auto.
+      * intros [H _]. destruct a; discriminate.
+    + inversion Hq; subst. rewrite prefix_cons, same_shape_cons, andb_true_iff.
+      rewrite (key_of_eq a b) by auto. rewrite (IH q m mc) by auto. tauto.
+Qed.
+
+Lemma existsb_same_route : forall p m routes i,
+  existsb (same_route (p, m)) routes
+  = existsb (fun c => same_shape (pattern p) (c_rest c) && bytes_eqb m (c_method c)) (cands_from i routes).
+Proof.
+  induction routes as [|[p' m'] routes IH]; intros i; cbn [existsb cands_from]; auto.
+  rewrite (IH (S i)). reflexivity.
+Qed.
+
+Lemma cands_from_app : forall a b i, cands_from i (a ++ b) = cands_from i a ++ cands_from (i + length a) b.
+Proof.
+  induction a as [|[p m] a IH]; intros b i; cbn [app cands_from length].
+  - rewrite Nat.add_0_r. auto.
+  - rewrite IH. replace (S i + length a) with (i + S (length a)) by lia. auto.
+Qed.
+
+Definition Repr (t : table) (routes : list route) : Prop :=
+  KSem (t_root t) (map to_kc (cands_from 0 routes))
+  /\ Forall cand_wf (cands_from 0 routes)
+  /\ t_count t = length routes.
+
+Lemma Repr_empty : Repr empty_table [].
+Proof. split; [apply KSem_empty | split; [constructor | reflexivity]]. Qed.
+
+Lemma handle_spec : forall t routes p m, Repr t routes ->
+  if accepts routes (p, m)
+  then exists t', handle t p m = Some t' /\ Repr t' (routes ++ [(p, m)])
+  else handle t p m = None.
+Proof.
+  intros t routes p m [HK [Hwf Hcnt]].
+  unfold accepts, handle, parse_route. cbn [fst snd].
+  destruct (valid_method m) eqn:Ev; cbn [andb].
+  2: { rewrite method_tag_invalid by auto. reflexivity. }
+  destruct (method_tag_valid m Ev) as [mtag Hmt]. rewrite Hmt.
+  assert (Ht0 : method_tag0 m = mtag) by (apply method_tag0_valid; auto).
+  rewrite parse_loop_segs.
+  pose proof (parse_segs_pattern (segments p) (t_root t) mtag (t_count t) []) as Hps.
+  rewrite fwd_ok_nil in Hps. fold (pattern p) in Hps.
+  destruct (pattern_ok (pattern p)) eqn:Eok; cbn [andb].
+  2: { destruct (parse_segs (segments p) (t_root t) mtag (t_count t) []). cbn [snd] in Hps. subst. reflexivity. }
+  rewrite Hps. cbn [app].
+  rewrite (existsb_same_route p m routes 0).
+  pose proof HK as [HA HB].
+  set (keys := map key_of (pattern p) ++ [mtag]).
+  assert (Hiff : lookup (t_root t) keys <> None <->
+                 existsb (fun c => same_shape (pattern p) (c_rest c) && bytes_eqb m (c_method c)) (cands_from 0 routes) = true).
+  { rewrite HA by (subst keys; destruct (map key_of (pattern p)); discriminate).
+    rewrite existsb_exists. split.
+    - intros [e [Hin Hp]]. apply in_map_iff in Hin. destruct Hin as [c [<- Hin]].
+      exists c. split; auto. cbn [to_kc fst] in Hp. unfold ckeys in Hp. subst keys. rewrite <- Ht0 in Hp.
+      rewrite Forall_forall in Hwf. destruct (Hwf c Hin) as [W1 W2].
+      apply keys_prefix_shape in Hp; auto using pattern_wf. destruct Hp as [-> ->].
+      rewrite bytes_eqb_refl. reflexivity.
+    - intros [c [Hin Hc]]. apply andb_true_iff in Hc. destruct Hc as [H1 H2]. apply bytes_eqb_eq in H2.
+      exists (to_kc c). split; [apply in_map; auto|]. cbn [to_kc fst]. unfold ckeys. subst keys. rewrite <- Ht0.
+      rewrite Forall_forall in Hwf. destruct (Hwf c Hin) as [W1 W2].
+      apply keys_prefix_shape; auto using pattern_wf. }
+  destruct (existsb _ (cands_from 0 routes)) eqn:Ed; cbn [negb].
+  - assert (Hd : lookup (t_root t) keys <> None) by (apply Hiff; reflexivity).
+    pose proof (put_dup (map key_of (pattern p)) (t_root t) mtag (t_count t) (pattern_names (pattern p)) Hd) as Hpd.
+    destruct (put _ _ _ _ _). cbn [snd] in Hpd. subst. reflexivity.
+  - assert (Hn : lookup (t_root t) keys = None).
+    { destruct (lookup (t_root t) keys) eqn:El; auto. exfalso.
+      assert (Some n <> None) as Hx by discriminate. apply Hiff in Hx. discriminate. }
+    rewrite put_ok by auto. eexists. split; [reflexivity|].
+    unfold Repr. cbn [t_root t_count]. rewrite cands_from_app. cbn [cands_from Nat.add].
+    split; [|split].
+    + rewrite map_app. cbn [map]. unfold to_kc at 2. unfold ckeys. cbn [c_rest c_method c_id c_names].
+      rewrite Ht0, Hcnt. apply KSem_insert; auto.
+    + apply Forall_app. split; auto. constructor; [|constructor]. split; cbn [c_rest c_method]; auto using pattern_wf.
+    + rewrite app_length. cbn [length]. lia.
+Qed.
+
+Theorem register_from_spec : forall rs t routes, Repr t routes ->
+  if table_ok_from routes rs
+  then exists t', register_from t rs = Some t' /\ Repr t' (routes ++ rs)
+  else register_from t rs = None.
+Proof.
+  induction rs as [|[p m] rs IH]; intros t routes HR; cbn [table_ok_from register_from].
+  - rewrite app_nil_r. eauto.
+  - pose proof (handle_spec t routes p m HR) as Hh.
+    destruct (accepts routes (p, m)); cbn [andb].
+    + destruct Hh as [t' [E1 HR']]. rewrite E1.
+      specialize (IH t' (routes ++ [(p, m)]) HR'). rewrite <- app_assoc in IH. exact IH.
+    + rewrite Hh. reflexivity.
+Qed.
+
+Theorem register_all_spec : forall routes,
+  if table_ok routes
+  then exists t, register_all routes = Some t /\ Repr t routes
+  else register_all routes = None.
+Proof. intros. apply (register_from_spec routes empty_table [] Repr_empty). Qed.
+
+Lemma register_all_repr : forall routes t, register_all routes = Some t -> Repr t routes /\ table_ok routes = true.
+Proof.
+  intros routes t H. pose proof (register_all_spec routes) as Hs.
+  destruct (table_ok routes).
+  - destruct Hs as [t' [E HR]]. rewrite E in H. inversion H; subst. auto.
+  - rewrite Hs in H. discriminate.
+Qed.
+
+(** * 7. the statements used by Properties/C04.v *)
+
+Definition spec_target (routes : list route) (path method : bytes) : target :=
+  match match_spec routes (segments path) method with
+  | Some m => Route (m_route m)
+  | None => NoRoute
+  end.
+
+Theorem serve_http_dispatch : forall routes t path method,
+  register_all routes = Some t ->
+  exists ps, serve_http t path method = Some [Call (spec_target routes path method) ps] /\
+    match match_spec routes (segments path) method with
+    | Some m => pK ps = m_names m /\ v_items (pV ps) = m_values m
+    | None => pK ps = []
+    end.
+Proof.
+  intros routes t path method Hreg. apply register_all_repr in Hreg. destruct Hreg as [[HK [Hwf _]] _].
+  destruct (find_route_spec routes (t_root t) path method (fresh_params (t_max_params t)) HK Hwf eq_refl)
+    as [info [ps' [E H]]].
+  unfold serve_http, spec_target. rewrite E. exists ps'.
+  destruct (match_spec routes (segments path) method) as [m|].
+  - destruct H as [-> [H1 H2]]. auto.
+  - destruct H as [-> H1]. auto.
+Qed.
+
+(** ** names and values have the same length *)
+
+Definition bal (vals : list bytes) (c : cand) : Prop :=
+  length (c_names c) = length vals + length (pattern_names (c_rest c)).
+
+Lemma Forall_advance_filter : forall (P : cand -> bool) (Q Q' : cand -> Prop) cs,
+  (forall c, P c = true -> Q c -> Q' (advance c)) ->
+  Forall Q cs -> Forall Q' (map advance (filter P cs)).
+Proof.
+  intros P Q Q' cs H. induction cs as [|c cs IH]; intros HF; cbn [filter map]; [constructor|].
+  inversion HF; subst. destruct (P c) eqn:E; auto. cbn [map]. constructor; auto.
+Qed.
+
+Lemma bal_lit : forall s vals c, is_lit s c = true -> bal vals c -> bal vals (advance c).
+Proof.
+  unfold is_lit, bal, advance. intros s vals c H. cbn [c_names c_rest].
+  destruct (c_rest c) as [|[| |] r]; try discriminate. auto.
+Qed.
+Lemma bal_param : forall x vals c, is_param c = true -> bal vals c -> bal (vals ++ [x]) (advance c).
+Proof.
+  unfold is_param, bal, advance. intros x vals c H. cbn [c_names c_rest].
+  destruct (c_rest c) as [|[| |] r]; try discriminate. cbn [pattern_names tl length]. rewrite app_length. cbn [length]. lia.
+Qed.
+Lemma bal_any : forall x vals c, is_any c = true -> bal vals c -> bal (vals ++ [x]) (advance c).
+Proof.
+  unfold is_any, bal, advance. intros x vals c H. cbn [c_names c_rest].
+  destruct (c_rest c) as [|[| |] r]; try discriminate. cbn [pattern_names tl length]. rewrite app_length. cbn [length]. lia.
+Qed.
+
+Lemma walk_spec_bal : forall segs cs vals cs' vals',
+  Forall (bal vals) cs -> walk_spec cs segs vals = Some (cs', vals') -> Forall (bal vals') cs'.
+Proof.
+  induction segs as [|s rest IH]; intros cs vals cs' vals' HF H; cbn [walk_spec] in H.
+  - inversion H; subst. auto.
+  - destruct (is_nil s && negb (is_nil rest)); [eapply IH; eauto|].
+    destruct (filter (is_lit s) cs) as [|c0 ls] eqn:E1.
+    + destruct (filter is_param cs) as [|c1 ps] eqn:E2.
+      * destruct (filter is_any cs) as [|c2 zs] eqn:E3; [discriminate|].
+        rewrite <- E3 in H. inversion H; subst. eapply Forall_advance_filter; [|exact HF]. intros. apply bal_any; auto.
+      * eapply IH; [|exact H]. rewrite <- E2. eapply Forall_advance_filter; [|exact HF]. intros. apply bal_param; auto.
+    + eapply IH; [|exact H]. rewrite <- E1. eapply Forall_advance_filter; [|exact HF]. intros c Hc. apply (bal_lit s); auto.
+Qed.
+
+Lemma finish_spec_bal : forall cs method vals m,
+  Forall (bal vals) cs -> finish_spec cs method vals = Some m -> length (m_names m) = length (m_values m).
+Proof.
+  intros cs method vals m HF H. unfold finish_spec in H. rewrite Forall_forall in HF.
+  assert (G : forall c, In c (filter is_done cs) -> length (c_names c) = length vals).
+  { intros c Hin. apply filter_In in Hin. destruct Hin as [Hin Hd]. specialize (HF c Hin). unfold bal in HF.
+    unfold is_done in Hd. destruct (c_rest c); [|discriminate]. cbn in HF. lia. }
+  destruct (find _ _) as [c|] eqn:E1.
+  - inversion H; subst. cbn. apply find_some in E1. apply G. tauto.
+  - destruct (find (fun c => bytes_eqb (c_method c) RouteSpec.method_all) _) as [c|] eqn:E2; [|discriminate].
+    inversion H; subst. cbn. apply find_some in E2. apply G. tauto.
+Qed.
+
+Lemma cands_from_bal : forall routes i, Forall (bal []) (cands_from i routes).
+Proof.
+  induction routes as [|[p m] routes IH]; intros i; cbn [cands_from]; constructor; auto.
+  unfold bal. cbn. auto.
+Qed.
+
+Lemma walk_finish_bal : forall cs segs method m,
+  Forall (bal []) cs -> walk_finish cs segs method = Some m -> length (m_names m) = length (m_values m).
+Proof.
+  intros cs segs method m HF H. unfold walk_finish in H.
+  destruct (walk_spec cs segs []) as [[cs' vals']|] eqn:E; [|discriminate].
+  eapply finish_spec_bal; [|exact H]. eapply walk_spec_bal; eauto.
+Qed.
+
+Theorem match_spec_bal : forall routes segs method m,
+  match_spec routes segs method = Some m -> length (m_names m) = length (m_values m).
+Proof.
+  intros routes segs method m H. rewrite match_spec_eq in H.
+  pose proof (cands_from_bal routes 0) as HF.
+  destruct (single_empty segs).
+  - destruct (finish_spec (cands_from 0 routes) method []) as [m'|] eqn:E.
+    + inversion H; subst. eapply finish_spec_bal; eauto.
+    + eapply walk_finish_bal; eauto.
+  - eapply walk_finish_bal; eauto.
+Qed.
+
+Lemma params_get_at_spec : forall ks vs pre key, length ks = length vs ->
+  exists b, params_get_at ks (pre ++ vs) (length pre) key = Some (lookup_param ks vs key, b).
+Proof.
+  induction ks as [|k ks IH]; intros vs pre key Hl.
+  - cbn. eauto.
+  - destruct vs as [|v vs]; [discriminate|]. cbn [params_get_at lookup_param].
+    destruct (bytes_eqb k key).
+    + rewrite nth_error_app2 by lia. rewrite Nat.sub_diag. cbn. eauto.
+    + specialize (IH vs (pre ++ [v]) key). rewrite <- app_assoc, app_length in IH. cbn [app length] in IH.
+      rewrite Nat.add_1_r in IH. apply IH. cbn [length] in Hl. lia.
+Qed.
+
+Lemma route_param_of_spec : forall ps name, length (pK ps) = length (v_items (pV ps)) ->
+  route_param_of ps name = Some (lookup_param (pK ps) (v_items (pV ps)) name).
+Proof.
+  intros ps name Hl. unfold route_param_of, params_get.
+  destruct (params_get_at_spec (pK ps) (v_items (pV ps)) [] name Hl) as [b E].
+  cbn [app length] in E. rewrite E. reflexivity.
+Qed.
+
+(** ** values are pieces of the path *)
+
+Definition is_piece (segs : list bytes) (v : bytes) : Prop :=
+  In v segs \/ exists k, v = join47 (skipn k segs).
+
+Lemma is_piece_cons : forall s rest v, is_piece rest v -> is_piece (s :: rest) v.
+Proof.
+  intros s rest v [H | [k H]]; [left; right; auto | right; exists (S k); auto].
+Qed.
+
+Lemma walk_spec_values : forall segs cs vals cs' vals',
+  walk_spec cs segs vals = Some (cs', vals') ->
+  exists new, vals' = vals ++ new /\ Forall (is_piece segs) new.
+Proof.
+  induction segs as [|s rest IH]; intros cs vals cs' vals' H; cbn [walk_spec] in H.
+  - inversion H; subst. exists []. rewrite app_nil_r. auto.
+  - assert (Lift : forall cs0 vals0, walk_spec cs0 rest vals0 = Some (cs', vals') ->
+                   exists new, vals' = vals0 ++ new /\ Forall (is_piece (s :: rest)) new).
+    { intros cs0 vals0 H0. destruct (IH _ _ _ _ H0) as [new [E F]]. exists new. split; auto.
+      eapply Forall_impl; [|exact F]. intros. apply is_piece_cons. auto. }
+    destruct (is_nil s && negb (is_nil rest)); [eapply Lift; eauto|].
+    destruct (filter (is_lit s) cs) as [|c0 ls]; [|eapply Lift; eauto].
+    destruct (filter is_param cs) as [|c1 ps].
+    + destruct (filter is_any cs) as [|c2 zs]; [discriminate|]. inversion H; subst.
+      exists [join47 (s :: rest)]. split; auto. constructor; auto. right. exists 0. reflexivity.
+    + destruct (Lift _ _ H) as [new [E F]]. exists (s :: new). rewrite <- app_assoc in E. split; auto.
+      constructor; auto. left. left. auto.
+Qed.
+
+Theorem match_spec_values : forall routes segs method m,
+  match_spec routes segs method = Some m -> Forall (is_piece segs) (m_values m).
+Proof.
+  intros routes segs method m H. rewrite match_spec_eq in H.
+  assert (F0 : forall cs vals m0, finish_spec cs method vals = Some m0 -> m_values m0 = vals).
+  { intros cs vals m0 H0. unfold finish_spec in H0.
+    destruct (find _ _); [inversion H0; auto|]. destruct (find _ _); inversion H0; auto. }
+  assert (W : forall m0, walk_finish (cands_from 0 routes) segs method = Some m0 -> Forall (is_piece segs) (m_values m0)).
+  { intros m0 H0. unfold walk_finish in H0. destruct (walk_spec _ segs []) as [[cs' vals']|] eqn:E; [|discriminate].
+    apply F0 in H0. rewrite H0. destruct (walk_spec_values _ _ _ _ _ E) as [new [-> F]]. auto. }
+  destruct (single_empty segs); auto.
+  destruct (finish_spec (cands_from 0 routes) method []) eqn:E; auto.
+  inversion H; subst. apply F0 in E. rewrite E. constructor.
+Qed.
+
+Lemma split_first_prefix : forall s f fs, split_on 47 s = f :: fs -> exists post, s = f ++ post.
+Proof.
+  induction s as [|b r IH]; intros f fs H; cbn [split_on] in H.
+  - inversion H; subst. exists []. auto.
+  - destruct (b =? 47)%N.
+    + inversion H; subst. exists (b :: r). auto.
+    + destruct (split_on 47 r) as [|f' fs'] eqn:E; inversion H; subst.
+      * exists r. auto.
+      * destruct (IH f' fs eq_refl) as [post ->]. exists post. auto.
+Qed.
+
+Lemma split_piece_sub : forall s v, In v (split_on 47 s) -> exists pre post, s = pre ++ v ++ post.
+Proof.
+  induction s as [|b r IH]; intros v H; cbn [split_on] in H.
+  - destruct H as [<- | []]. exists [], []. auto.
+  - destruct (b =? 47)%N.
+    + destruct H as [<- | H]; [exists [], (b :: r); auto|].
+      destruct (IH v H) as [pre [post ->]]. exists (b :: pre), post. auto.
+    + destruct (split_on 47 r) as [|f fs] eqn:E.
+      * destruct H as [<- | []]. exists [], r. auto.
+      * destruct H as [<- | H].
+        -- destruct (split_first_prefix r f fs E) as [post ->]. exists [], post. auto.
+        -- destruct (IH v (or_intror H)) as [pre [post ->]]. exists (b :: pre), post. auto.
+Qed.
+
+Lemma split_cons2 : forall s f g fs, split_on 47 s = f :: g :: fs ->
+  exists s', s = f ++ 47%N :: s' /\ split_on 47 s' = g :: fs.
+Proof.
+  induction s as [|b r IH]; intros f g fs H; cbn [split_on] in H; [discriminate|].
+  destruct (b =? 47)%N eqn:Eb.
+  - apply N.eqb_eq in Eb. inversion H; subst. exists r. auto.
+  - destruct (split_on 47 r) as [|f' fs'] eqn:E; inversion H; subst.
+    destruct (IH f' g fs eq_refl) as [s' [-> H2]]. exists s'. auto.
+Qed.
+
+Lemma split_suffix : forall k s, exists pre, s = pre ++ join47 (skipn k (split_on 47 s)).
+Proof.
+  induction k as [|k IH]; intros s.
+  - exists []. cbn [skipn app]. symmetry. apply join_split.
+  - destruct (split_on 47 s) as [|f fs] eqn:E; [exfalso; eapply split_on_nonempty; eauto|].
+    cbn [skipn]. destruct fs as [|g fs].
+    + exists s. destruct k; cbn; rewrite app_nil_r; auto.
+    + destruct (split_cons2 s f g fs E) as [s' [-> H2]]. destruct (IH s') as [pre Hp]. rewrite H2 in Hp.
+      exists (f ++ 47%N :: pre). rewrite <- app_assoc. cbn [app]. rewrite <- Hp. auto.
+Qed.
+
+(** every bound value is literally a piece of the request path: one of its '/'-free runs
+    or a suffix of it *)
+Theorem piece_is_substring : forall path v, is_piece (segments path) v ->
+  exists pre post, path = pre ++ v ++ post.
+Proof.
+  intros path v H. unfold segments in H. destruct path as [|b0 r].
+  - cbn in H. exists [], []. destruct H as [[<- | []] | [k ->]]; auto. destruct k as [|[|k]]; reflexivity.
+  - cbn [tl] in H. destruct H as [H | [k ->]].
+    + destruct (split_piece_sub r v H) as [pre [post ->]]. exists (b0 :: pre), post. auto.
+    + destruct (split_suffix k r) as [pre Hp]. exists (b0 :: pre), []. rewrite app_nil_r. cbn [app]. rewrite <- Hp. auto.
+Qed.
+
+(** ** parseRoute never takes a runtime-panic branch *)
+
+Lemma parse_segs_no_panic : forall segs nd mtag info names,
+  snd (parse_segs segs nd mtag info names) <> PErr ErrRuntimePanic.
+Proof.
+  assert (Fin : forall nd mtag info names, snd (parse_finish nd mtag info names) <> PErr ErrRuntimePanic).
+  { intros. unfold parse_finish. destruct (next_get nd mtag); cbn; discriminate. }
+  induction segs as [|s r IH]; intros nd mtag info names; cbn [parse_segs]; [apply Fin|].
+  unfold parse_frag. destruct s as [|c n]; [apply IH|].
+  destruct (bytes_eqb (c :: n) [42%N]).
+  - pose proof (Fin (next_or_new nd route_param_any) mtag info (names ++ [route_param_any])) as F.
+    destruct (parse_finish _ _ _ _). auto.
+  - destruct (c =? 58)%N.
+    + destruct (is_nil n || mem_bytes n names); [cbn; discriminate|].
+      pose proof (IH (next_or_new nd route_param) mtag info (names ++ [n])) as F.
+      destruct (parse_segs _ _ _ _ _). auto.
+    + pose proof (IH (next_or_new nd (c :: n)) mtag info names) as F.
+      destruct (parse_segs _ _ _ _ _). auto.
+Qed.
+
+Theorem parse_route_no_runtime_panic : forall root path method info,
+  snd (parse_route root path method info) <> PErr ErrRuntimePanic.
+Proof.
+  intros. unfold parse_route. destruct (method_tag method); [|cbn; discriminate].
+  rewrite parse_loop_segs. apply parse_segs_no_panic.
+Qed.
+
+(** ** Handle accepts / rejects exactly as the specification says *)
+
+Theorem handle_accepts_iff : forall routes t p m, register_all routes = Some t ->
+  (handle t p m <> None <-> accepts routes (p, m) = true).
+Proof.
+  intros routes t p m H. apply register_all_repr in H. destruct H as [HR _].
+  pose proof (handle_spec t routes p m HR) as Hs. destruct (accepts routes (p, m)).
+  - destruct Hs as [t' [E _]]. rewrite E. split; [auto | discriminate].
+  - rewrite Hs. split; [contradiction | discriminate].
+Qed.
+
+Theorem handle_rejects : forall routes t p m, register_all routes = Some t ->
+  valid_method m = false \/ pattern_ok (pattern p) = false
+  \/ (exists r, In r routes /\ same_route (p, m) r = true) ->
+  handle t p m = None.
+Proof.
+  intros routes t p m H Hbad.
+  assert (A : accepts routes (p, m) = false).
+  { unfold accepts. cbn [fst snd]. destruct Hbad as [-> | [-> | Hd]]; auto.
+    - rewrite andb_false_r. auto.
+    - apply existsb_exists in Hd. rewrite Hd. rewrite andb_false_r. auto. }
+  destruct (handle t p m) eqn:E; auto.
+  assert (handle t p m <> None) as Hx by (rewrite E; discriminate).
+  apply (handle_accepts_iff routes t p m H) in Hx. congruence.
+Qed.
+
+Theorem register_all_iff : forall routes, register_all routes <> None <-> table_ok routes = true.
+Proof.
+  intros. pose proof (register_all_spec routes) as Hs. destruct (table_ok routes).
+  - destruct Hs as [t [E _]]. rewrite E. split; [auto | discriminate].
+  - rewrite Hs. split; [contradiction | discriminate].
+Qed.
+
+Theorem handle_extends : forall routes t p m t', register_all routes = Some t ->
+  handle t p m = Some t' -> register_all (routes ++ [(p, m)]) = Some t'.
+Proof.
+  intros routes t p m t' H Hh. unfold register_all in *.
+  assert (G : forall rs t0, register_from t0 (rs ++ [(p, m)]) =
+                            match register_from t0 rs with Some t1 => handle t1 p m | None => None end).
+  { induction rs as [|[p' m'] rs IH]; intros t0; cbn [app register_from].
+    - destruct (handle t0 p m); auto.
+    - destruct (handle t0 p' m'); auto. }
+  rewrite G, H. auto.
+Qed.
+
+Theorem serve_http_params_bound : forall routes t path method m,
+  register_all routes = Some t ->
+  match_spec routes (segments path) method = Some m ->
+  exists ps, serve_http t path method = Some [Call (Route (m_route m)) ps]
+    /\ pK ps = m_names m /\ v_items (pV ps) = m_values m
+    /\ length (pK ps) = length (v_items (pV ps))
+    /\ (forall name, route_param_of ps name = Some (lookup_param (m_names m) (m_values m) name))
+    /\ Forall (fun v => is_piece (segments path) v /\ exists pre post, path = pre ++ v ++ post)
+              (v_items (pV ps)).
+Proof.
+  intros routes t path method m Hreg Hm.
+  destruct (serve_http_dispatch routes t path method Hreg) as [ps [E H]].
+  unfold spec_target in E. rewrite Hm in E, H. destruct H as [H1 H2].
+  pose proof (match_spec_bal _ _ _ _ Hm) as Hb.
+  exists ps. split; auto. split; auto. split; auto.
+  assert (Hl : length (pK ps) = length (v_items (pV ps))) by congruence.
+  split; auto. split.
+  - intros name. rewrite route_param_of_spec by auto. rewrite H1, H2. reflexivity.
+  - rewrite H2. eapply Forall_impl; [|apply (match_spec_values _ _ _ _ Hm)].
+    intros v Hv. split; auto. apply piece_is_substring. auto.
+Qed.
+
+Theorem serve_http_noroute : forall routes t path method,
+  register_all routes = Some t ->
+  match_spec routes (segments path) method = None ->
+  exists ps, serve_http t path method = Some [Call NoRoute ps]
+    /\ forall name, route_param_of ps name = Some [].
+Proof.
+  intros routes t path method Hreg Hm.
+  destruct (serve_http_dispatch routes t path method Hreg) as [ps [E H]].
+  unfold spec_target in E. rewrite Hm in E, H.
+  exists ps. split; auto. intros name. unfold route_param_of, params_get. rewrite H. reflexivity.
+Qed.
